@@ -22,8 +22,8 @@ pub const EXTRA_FLAGS: [&str; 4] = ["unpruned_graph_with_dangling_extensions", "
 
 pub fn plan(quick: bool) -> Vec<Part> {
     let mut v = vec![];
-    let (l4, p4, t4) = if quick { (8, 5, 7) } else { (11, 6, 9) };
-    let (l5, t5) = if quick { (8, 7) } else { (11, 9) };
+    let (l4, p4, t4) = if quick { (8, 5, 7) } else { (10, 5, 9) };
+    let (l5, t5) = if quick { (8, 7) } else { (10, 9) };
     let l6 = if quick { 8 } else { 10 };
     let sub = if quick { 5 } else { 8 };
     v.push(Part::new("C03", "R1+RT", 4, Space::singles(4, l4).plus(Space::thresholds(4, t4))).dim("sub", &[sub]).dim("all_links", &[1]));
@@ -31,9 +31,9 @@ pub fn plan(quick: bool) -> Vec<Part> {
     v.push(Part::new("C03", "R1+RT", 5, Space::singles(5, l5).plus(Space::thresholds(5, t5))).dim("sub", &[sub - 1]).dim("all_links", &[1]));
     v.push(Part::new("C03", "R1", 6, Space::singles(6, l6)).dim("sub", &[sub - 2]).dim("all_links", &[1]));
     if !quick {
-        v.push(Part::new("C03", "R2", 5, Space::pairs(5, 6)).dim("sub", &[0]).dim("all_links", &[0]));
-        v.push(Part::new("C03", "R2", 6, Space::pairs(6, 7)).dim("sub", &[0]).dim("all_links", &[0]));
-        v.push(Part::new("C03", "R3", 4, Space::triples(4, 5)).dim("sub", &[0]).dim("all_links", &[1]));
+        v.push(Part::new("C03", "R2", 5, Space { segs: vec![Seg::Pair(5, 5), Seg::Pair(6, 5)] }).dim("sub", &[0]).dim("all_links", &[0]));
+        v.push(Part::new("C03", "R2", 6, Space { segs: vec![Seg::Pair(6, 6)] }).dim("sub", &[0]).dim("all_links", &[0]));
+        v.push(Part::new("C03", "R3", 4, Space::triples(4, 4)).dim("sub", &[0]).dim("all_links", &[1]));
     }
     v.push(Part::new("C03", "handbuilt-node-lists", 4, if quick { Space::singles(4, 6).plus(Space { segs: vec![Seg::Pair(4, 4), Seg::Pair(5, 4)] }) } else { Space::singles(4, 8).plus(Space::pairs(4, 5)) }).dim("handbuilt", &[1]));
     v.push(Part::new("C03", "handbuilt-node-lists", 5, Space::singles(5, if quick { 7 } else { 8 })).dim("handbuilt", &[1]));
